@@ -49,9 +49,9 @@ CLAIMED = {
    technique="Coq proof (integer division facts) + differential correspondence with injected clock",
    design="5 C15"),
  "C12": dict(
-   text="Coq theorem for the engine half: for every sequence of one-character tests and '.*' (what a glob translates to) and every subject, Oniguruma-style first-match backtracking followed by the full-length test equals whole-string fnmatch (some way of matching the entire string exists) - no bound on lengths or stars. The parser half (glob text -> regex text -> Oniguruma's bracket reading) is an executable Coq model, not yet proved equal to a reference, validated on every run against the implementation (regex text and verdict through the hook) and against glibc fnmatch on the guarded domain, exhaustively over short patterns x subjects.",
-   note="Partial: parser half validated, not proved. Oniguruma is modelled. glibc fnmatch is the executable reference where the property fixes the answer (no backslash/leading ^ in brackets, no collating symbols; case folding of ranges/classes left open).",
-   technique="Coq proof (engine: induction with the shift lemma) + exhaustive small-domain differential correspondence",
+   text="Coq theorems for both halves. Engine: for every sequence of one-character tests and '.*' (what a glob translates to) and every subject, Oniguruma-style first-match backtracking followed by the full-length test equals whole-string fnmatch - no bound on lengths or stars. Parser: for every well-formed structured glob (ordinary and escaped characters, ?, *, bracket expressions of characters, ranges and named classes, optionally negated) glob_to_regex/extract_bracket_expr/regex_push_literal write the expected regex text and the engine's reading of that text is the glob's meaning, so glob_match (show g) s = fnmatch (sem g) s; a final unescaped backslash matches nothing and a final lone '[' is literal. Outside the well-formed fragment (']' or '-' as list members, unclosed brackets in the middle, collating symbols) the executable model is validated on every run against the implementation (regex text and verdict through the hook) and against glibc fnmatch on the guarded domain, exhaustively over short patterns x subjects.",
+   note="Oniguruma's reading of the regex text is a model (validated against the real engine on every run). The irregular bracket forms are validated, not proved. glibc fnmatch is the executable reference where the property fixes the answer (no backslash/leading ^ in brackets, no collating symbols; case folding of ranges/classes left open).",
+   technique="Coq proof (engine: induction with the shift lemma; parser: induction over structured globs) + exhaustive small-domain differential correspondence",
    design="5 C12"),
  "C07": dict(
    text="Coq theorems: the printed path is the starting point as given followed by the names joined by single '/' (none added after a trailing '/'), and a stream of paths each followed by its delimiter is read back by the byte-delimited reader as exactly those paths, in order, for every chunking; with C04's losslessness every path reaches the command exactly once. Tied to /repo by in-process -print0/-print on trees of hostile names under nine spellings of the starting point and by real find | xargs -0 pipelines with a recorder.",
